@@ -200,6 +200,23 @@ def run(ctx):
         hs = v + "0000P0TE00N0100" + "KS0003" + "%06X" % (L + 12) + t.rstr(rng, L, t.ALNUM)
         wrap_items.append((rng.randbytes(t.KBPK_SIZES[v][-1]), hs, rng.randbytes(16), None))
         load_items.append(hs)
+    # the optional block ids the standard defines, with well-formed contents (code that interprets a block - a KBPK check value
+    # in KP, a key set identifier in KS, a time stamp in TS ...) x every KBPK length 0..40, valid and invalid
+    STD = [("KP", "00A1B2"), ("KP", "00A1B2C3"), ("KP", "01A1B2C3D4"), ("KS", "00604B120F9292800000"), ("KV", "0001"), ("TS", "20261001120000Z"),
+           ("TC", "20261001120000Z"), ("HM", "21"), ("CT", "00"), ("AL", "0100"), ("BI", "0012345"), ("DA", "01P0TE00N"), ("IK", "1234567890123456"),
+           ("LB", "label"), ("PK", "00A1B2C3"), ("WP", "0000"), ("KC", "00A1B2C3"), ("FL", "0000")]
+    for v in "ABCD":
+        for bid, data in STD:
+            c = t.gen_case(rng, version=v, profile="none", keylen=16, mask=None)
+            c["blocks"] = [(bid, data)]
+            try:
+                g = tr31.wrap(c["kbpk"], t.impl_header(c), c["key"])
+            except Exception:  # noqa: BLE001
+                continue
+            unwrap_items.append((c["kbpk"], g))
+            for n in (0, 1, 7, 9, 15, 17, 23, 25, 31, 33, 40):
+                unwrap_items.append((rng.randbytes(n), g))
+                wrap_items.append((rng.randbytes(n), g[: tr31.Header().load(g)], rng.randbytes(16), None))
     # every KBPK length 0..40 against valid blocks of each version
     for v in "ABCD":
         c = t.gen_case(rng, version=v, profile="few", keylen=16, mask=None)
